@@ -152,7 +152,8 @@ func c09Alphabet(thorough bool) []string {
 	a = append(a, "bind:A:e1f1:L1lc:lc:n", "bind:B:e1f1:L2lc:lc:n")
 	a = append(a,
 		"bind:A:e1f3:L1lc:lc:d", "bind:A:e1f4:L1lc:lc:d", "bind:A:e1f9:L1lc:lc:d", "bind:A:e9f1:L1lc:lc:d",
-		"bind:A:e1f1:L1cl:lc:d", "bind:A:e1f1:L1x:lc:d", "bind:A:e1f1:L9:lc:d", "bind:A:e1f1:L1lc:ms:d", "bind:B:e1f1:L1ms:lc:d")
+		"bind:A:e1f1:L1cl:lc:d", "bind:A:e1f1:L1x:lc:d", "bind:A:e1f1:L9:lc:d", "bind:A:e1f1:L1lc:ms:d", "bind:B:e1f1:L1ms:lc:d",
+		"bind:A:e1f1:L1lc:gen:d", "bind:A:e1f1:L1ms:gen:d") // Generic requested for features that are not Generic
 	for _, v := range valid {
 		a = append(a, "unbind:"+v[0]+":"+v[1]+":"+v[2]+":d")
 	}
